@@ -274,7 +274,7 @@ func (f *g2lFn) callExt(c *ast.CallExpr) (string, bool) {
 	if !strings.Contains(tmpl, ":lit}") && !(recvPtr && f.g.strOn()) {
 		return "", false // the plain path (and go2lean_ptr.go for receivers of other configurations) takes it
 	}
-	if c.Ellipsis.IsValid() || sig.Variadic() {
+	if c.Ellipsis.IsValid() || (sig.Variadic() && !f.g.env().Variadic) { // go2lean_env.go: arguments the template does not mention are dropped
 		f.fail("variadic primitive `%s`", f.src(c))
 	}
 	var argEs []ast.Expr
@@ -564,6 +564,9 @@ func (f *g2lFn) tupleRhs(x *ast.AssignStmt) string {
 	case *ast.CallExpr:
 		return f.exprNB(r)
 	case *ast.TypeAssertExpr:
+		if s, ok := f.typeAssertEnv(x, r); ok { // go2lean_env.go
+			return s
+		}
 		if !f.g.strOn() || len(x.Lhs) != 2 || r.Type == nil {
 			break
 		}
